@@ -251,22 +251,40 @@ def _env():
     return e
 
 
+MEM_CAP_KB = int(os.environ.get('VERIF_KANI_MEM_KB', str(10 * 1024 * 1024)))   # per cbmc process
+HARNESS_TIMEOUT = os.environ.get('VERIF_KANI_HARNESS_TIMEOUT', '300s')
+KANI_FLAGS = ['-Z', 'function-contracts', '-Z', 'unstable-options', '--no-overflow-checks',
+              '--harness-timeout', HARNESS_TIMEOUT]
+# --no-overflow-checks removes only CBMC's own NaN / float-overflow / div-by-zero
+# instrumentation.  Rust's integer overflow, division-by-zero, index and unwrap
+# panics are MIR assertions and are still checked (measured: negate(-32768)).
+
+
+def _limit():
+    import resource
+    resource.setrlimit(resource.RLIMIT_AS, (MEM_CAP_KB * 1024, MEM_CAP_KB * 1024))
+
+
 def run_harnesses(names, jobs=16, timeout=3600, extra=()):
     """Run the given harnesses in one cargo-kani invocation.
     Returns dict(results{name: 'ok'|'fail'|'undecided'}, log, wall_s, build_error)"""
     if not names:
         return dict(results={}, log='', wall_s=0.0, build_error=None)
-    cmd = ['cargo', 'kani', '-Z', 'function-contracts', '--output-format', 'terse', '-j', str(jobs)]
+    cmd = ['cargo', 'kani'] + KANI_FLAGS + ['--output-format', 'terse', '-j', str(jobs)]
     cmd += list(extra)
     for n in names:
         cmd += ['--harness', n]
     t0 = time.time()
     try:
         p = subprocess.run(cmd, cwd=CRATE, env=_env(), stdout=subprocess.PIPE, stderr=subprocess.STDOUT,
-                           text=True, timeout=timeout)
+                           text=True, timeout=timeout, preexec_fn=_limit)
         log = p.stdout
     except subprocess.TimeoutExpired as e:
-        log = (e.stdout or '') + '\nTIMEOUT'
+        log = e.stdout or ''
+        if isinstance(log, bytes):
+            log = log.decode('utf-8', 'replace')
+        log += '\nTIMEOUT'
+        subprocess.run(['pkill', '-9', '-f', 'cbmc .*%s' % CRATE])
     wall = time.time() - t0
     results = {n: 'undecided' for n in names}
     if re.search(r'(?m)^error(\[E\d+\])?:', log) and 'Complete - ' not in log:
@@ -290,15 +308,19 @@ def run_harnesses(names, jobs=16, timeout=3600, extra=()):
 def run_single(name, playback=True, timeout=1800):
     """Re-run one failing harness alone to obtain the failed check descriptions
     and the concrete counterexample."""
-    cmd = ['cargo', 'kani', '-Z', 'function-contracts', '--output-format', 'terse', '--harness', name]
+    cmd = ['cargo', 'kani'] + KANI_FLAGS + ['--output-format', 'terse', '--harness', name]
     if playback:
         cmd += ['-Z', 'concrete-playback', '--concrete-playback=print']
     try:
         p = subprocess.run(cmd, cwd=CRATE, env=_env(), stdout=subprocess.PIPE, stderr=subprocess.STDOUT,
-                           text=True, timeout=timeout)
+                           text=True, timeout=timeout, preexec_fn=_limit)
         log = p.stdout
     except subprocess.TimeoutExpired as e:
-        log = (e.stdout or '') + '\nTIMEOUT'
+        log = e.stdout or ''
+        if isinstance(log, bytes):
+            log = log.decode('utf-8', 'replace')
+        log += '\nTIMEOUT'
+        subprocess.run(['pkill', '-9', '-f', 'cbmc .*%s' % CRATE])
     failed_checks = re.findall(r'Failed Checks: (.*)', log)
     status = 'fail' if 'VERIFICATION:- FAILED' in log else ('ok' if 'VERIFICATION:- SUCCESSFUL' in log else 'undecided')
     vals = None
@@ -328,6 +350,94 @@ def native_replay(name, vals, timeout=900):
     else:
         oc = 'NOT-REPRODUCED'
     return dict(outcome=oc, log=out[-3000:])
+
+
+def contract_files():
+    cfs = sorted(glob.glob(os.path.join(VERIF, 'contracts', 'kani', '*.rs')))
+    return [c for c in cfs if not c.endswith('verif_support.rs')]
+
+
+def run_for_property(pid, repo, tier, seed, jobs=None):
+    """Run the Kani harnesses tagged with the property.  Returns None when no
+    harness is tagged, else dict(harnesses[(name,status,kind,meta)], failures,
+    undecided[], functions[], trusted[], cmds[], solver_s{}, samples[])."""
+    cfs = contract_files()
+    # cheap pre-scan: is the property mentioned in any map line?
+    tagged = False
+    for c in cfs:
+        for ln in open(c, encoding='utf-8'):
+            if ln.startswith('//@@ map ') and re.search(r'props=[A-Z0-9,]*\b%s\b' % pid, ln):
+                tagged = True
+    if not tagged:
+        return None
+    out = dict(harnesses=[], failures={}, undecided=[], functions=[], trusted=[], cmds=[], solver_s={},
+               samples=[])
+    try:
+        meta = build_crate(repo, cfs)
+    except Lost as e:
+        out['undecided'].append('kani: lost anchor: %s' % e)
+        return out
+    sel = []
+    for n in sorted(meta['harnesses']):
+        hm = harness_meta(meta, n)
+        if not hm or pid not in hm.get('props', '').split(','):
+            continue
+        t = hm.get('tier', 'quick')
+        if t == 'thorough' and tier != 'thorough':
+            continue
+        sel.append((n, hm))
+    if not sel:
+        return None
+    names = [n for n, _ in sel]
+    if jobs is None:
+        jobs = int(os.environ.get('VERIF_KANI_JOBS', '5'))
+    r = run_harnesses(names, jobs=jobs, timeout=int(os.environ.get('VERIF_KANI_TIMEOUT', '2400')))
+    out['cmds'].append('(cd build/kani && cargo kani %s -j %d --harness <%d harnesses>)' % (
+        ' '.join(KANI_FLAGS), jobs, len(names)))
+    out['solver_s']['kani:wall'] = round(r['wall_s'], 1)
+    if r['build_error']:
+        out['undecided'].append('kani: build or tool error: %s' % r['log'][-1500:])
+    for n, hm in sel:
+        st = r['results'].get(n, 'undecided')
+        kind = hm.get('kind', 'complete')
+        if st == 'fail':
+            one = run_single(n)
+            if one['status'] != 'fail':
+                st = 'undecided'
+                out['undecided'].append('kani harness %s: failed in the batch but not alone (%s)' % (n, one['status']))
+            else:
+                info = dict(text='Failed Checks: ' + ' | '.join(one['failed_checks'])[:3000],
+                            concrete_vals=one['concrete_vals'])
+                if one['concrete_vals'] is not None:
+                    rp = native_replay(n, one['concrete_vals'])
+                    info['replay'] = rp['outcome']
+                    info['replay_log'] = rp['log']
+                out['failures'][n] = info
+        elif st == 'undecided' and not r['build_error']:
+            out['undecided'].append('kani harness %s: no result (time-out or memory cap %d KB)' % (n, MEM_CAP_KB))
+        out['harnesses'].append((n, st, kind, hm))
+    fnames = set()
+    for n, hm in sel:
+        m = re.match(r'k_(.+?)__', n)
+        if m:
+            fnames.add(m.group(1))
+    for sp in meta['spliced']:
+        fn = sp.split('::')[-1]
+        impl = sp.split('::')[-2]
+        cand = fn
+        if fn == 'try_from':
+            mm = re.search(r'for (\w+)', impl)
+            cand = (mm.group(1) if mm else '') + '_try_from'
+        if cand in fnames:
+            out['functions'].append('%s [kani contract]' % sp)
+    out['trusted'].append('Kani models of std / intrinsics (checked_*, floor, trunc, float casts); Kani-nightly std assumed '
+                          'behaviourally identical to the std the shipped binary links')
+    out['trusted'].append("CBMC NaN / float-overflow instrumentation disabled (--no-overflow-checks): producing NaN or inf is "
+                          "not a crash in Rust; Rust's own overflow / div-by-zero / bounds panics remain checked as assertions")
+    for n, hm in sel[:4]:
+        out['samples'].append(dict(obligation='kani/' + n, kind=hm.get('kind', 'complete'),
+                                   domain=hm.get('domain', 'full input domain of the harness (see contracts/kani)')))
+    return out
 
 
 if __name__ == '__main__':
